@@ -155,3 +155,28 @@ CHECKS["C09"] = {
     "assumptions": ["queries are unique in their first coordinate, which attributes intercepted RPCs to a search"],
     "min": {"any": {"searches_checked": 2000}},
 }
+
+CHECKS["C10"] = {
+    "pkg": "./c10", "run": "^TestC10$", "level": "exploration",
+    "technique": "runtime monitor: routing function evaluated over ids x every modulus 1..1024 (range, repeatability, equality across fresh processes) + placement observed on an in-process cluster after writes through every entry node and API path",
+    "level_text": "Pure part: 20k (quick) / 200k (thorough) ids (random, all-zero, all-ones, every single bit, halves swapped) x every n in 1..1024: result in range, identical on repeated and concurrent evaluation, identical table digest in two fresh processes. System part: real 3-node clusters with 1/2/5/8 partitions and replication 1-2; each id is written through every entry node and insert path, updated from a second node and removed from a third through single and batch paths, and after each step exactly the replicas of partition route(id, n) hold it and no other partition does.",
+    "level_note": "Ids are sampled; the moduli 1..1024 are enumerated completely; the system part samples topologies (replica choice for proxied writes is random inside the code under test).",
+    "shards": {"quick": 5, "thorough": 12},
+    "timeout": {"quick": 900, "thorough": 3400},
+    "exhaustive": "partition counts 1..1024 for every sampled id (pure part)",
+    "rule": "pure: one case = the whole table; system: case c = topology, 24 (entry node x insert path x update path x remove path) sequences, placement checked after each of the 3 steps; all non-trivial; distinct = digest of the topology description",
+    "assumptions": ["placement is read from each node's partition index through the verif accessor"],
+    "min": {"any": {"pure_evaluations": 1000000, "placements_checked": 100, "fresh_process_tables": 2}},
+}
+
+CHECKS["C11"] = {
+    "pkg": "./c11", "run": "^TestC11$", "level": "exploration",
+    "technique": "runtime monitor on an in-process cluster: acknowledged writes vs owner-partition contents, raft-log growth on rejected writes (RecWAL), batch error maps vs a model, and caller outcomes under a forced apply-before-wait schedule (pause point) and concurrent callers",
+    "level_text": "Monitor on real clusters of 1..3 nodes: (a) every acknowledged insert is on a replica of the owner immediately and on all at quiescence; (c) dimension mismatches are rejected and no partition raft log grows (durable view of the WAL wrapper); (d) batches mixing present, absent and wrong-dimension items return exactly the model's error map and apply the rest; (e) callers are held at the pause point between Propose and the wait until their own entry has been applied and must still get their own outcome, then 24 concurrent callers run insert/duplicate/update/remove/absent sequences whose outcomes are all distinguishable.",
+    "level_note": "(b) unreachable owner is produced through the public API (the only hosting node is removed from the cluster, so the entry node forgets its address while the partition still lists it); interleavings beyond the forced one are whatever concurrency produced.",
+    "shards": {"quick": 5, "thorough": 12},
+    "timeout": {"quick": 900, "thorough": 3400},
+    "rule": "case c = topology (1..3 nodes, 1..4 partitions, replication 1..2); 12 acks, 6 dimension cases, 6 batch maps, forced and concurrent caller sequences; all non-trivial; distinct = digest of the topology",
+    "assumptions": ["error identity across the gRPC proxy is compared on the message text"],
+    "min": {"any": {"acks_checked": 30, "caller_outcomes_checked": 500, "batch_maps_checked": 10, "unreachable_owner_writes": 3}},
+}
